@@ -25,7 +25,9 @@ def add_dumps(ops, every=6, tag="x"):
 
 def classify(msg):
     m = msg
-    if "marked free" in m or "reached twice" in m or "out of range" in m: return "C04"
+    # a reachable block that the bitmap has free contradicts both the soundness (C04) and the equality (C05) statement
+    if "marked free" in m: return "MF"
+    if "reached twice" in m or "out of range" in m: return "C04"
     if "leak" in m or "free-block count" in m: return "C05"
     # the bitmap structure itself (page list, extension blocks) cannot be decoded: format conformance AND allocation soundness
     if m.startswith("bitmap:") or m.startswith("bitmap "): return "BM"
